@@ -497,10 +497,14 @@ func main() {
 		}
 	}
 	// 2. every binary operator on every pair of constants (quick: seed-dependent half)
+	//    quick: all pairs of a core set with one constant of every kind, plus a seed-dependent
+	//    sample of the other pairs
+	core := map[string]bool{"true": true, "false": true, "0": true, "1": true, "-1": true, ".5": true,
+		`""`: true, `"a"`: true, "#20200101": true}
 	for _, o := range binary {
 		for _, k1 := range ks {
 			for _, k2 := range ks {
-				if !vh.Thorough() && rnd.Intn(100) >= 10 {
+				if !vh.Thorough() && !(core[k1.lit] && core[k2.lit]) && rnd.Intn(100) >= 4 {
 					continue
 				}
 				emit(bin(o.name, leaf(0), leaf(1)), k1, k2)
